@@ -396,6 +396,8 @@ def make_semantics2(kind, rules, params=None, shape=None):
             raise AssertionError(f'rule {name}: declared params {want} but action received {a}')
         if kind == 'id':
             return ast
+        if kind == 'tolist':
+            return list(ast) if isinstance(ast, (list, tuple)) else ast
         if kind in ('tag', 'tagdefault'):
             return Tag(name, ast)
         if kind == 'failb':
@@ -490,7 +492,15 @@ def run_sem_case(case):
                     pass
             signal.alarm(case.get('timeout', 30))
             try:
-                if route == 'api':
+                if shape == 'compiled-twice' and case.get('backend') != 'generated':
+                    # the semantics object given to compile(); a second compile of the same text with ANOTHER object of the same
+                    # class must not take the first model over
+                    sem_b, _ = make_semantics2('id', case['rules'], case.get('params'))
+                    m1 = tatsu.compile(case['ebnf'], semantics=sem)
+                    tatsu.compile(case['ebnf'], semantics=sem_b)
+                    kw2 = {k: v for k, v in kw.items() if k != 'semantics'}
+                    o = outcome(lambda: m1.parse(text, start=case.get('start', 's'), **kw2))
+                elif route == 'api':
                     o = outcome(lambda: tatsu.parse(case['ebnf'], text, start=case.get('start', 's'), **kw))
                 else:
                     o = outcome(lambda: parse(text, start=case.get('start', 's'), **kw))
